@@ -609,15 +609,16 @@ impl DefaultFunction {
                 let arg2 = args[1].unwrap_integer()?;
                 let arg3 = args[2].unwrap_byte_string()?;
 
+                // Counts that do not fit a `usize` exceed any byte string's length.
                 let skip: usize = if arg1.lt(&0.into()) {
                     0
                 } else {
-                    arg1.try_into().unwrap()
+                    arg1.try_into().unwrap_or(usize::MAX)
                 };
                 let take: usize = if arg2.lt(&0.into()) {
                     0
                 } else {
-                    arg2.try_into().unwrap()
+                    arg2.try_into().unwrap_or(usize::MAX)
                 };
 
                 let ret: Vec<u8> = arg3.iter().skip(skip).take(take).cloned().collect();
@@ -637,10 +638,11 @@ impl DefaultFunction {
                 let arg1 = args[0].unwrap_byte_string()?;
                 let arg2 = args[1].unwrap_integer()?;
 
-                let index: i128 = arg2.try_into().unwrap();
+                // An index that does not fit a `usize` is necessarily out of bounds.
+                let index: Option<usize> = arg2.try_into().ok();
 
-                if 0 <= index && index < arg1.len() as i128 {
-                    let ret = arg1[index as usize];
+                if let Some(index) = index.filter(|index| *index < arg1.len()) {
+                    let ret = arg1[index];
 
                     let value = Value::integer(ret.into());
 
@@ -942,7 +944,9 @@ impl DefaultFunction {
                     })
                     .collect();
 
-                let i: u64 = i.try_into().unwrap();
+                let Ok(i) = u64::try_from(i) else {
+                    return Err(Error::OutsideNaturalBounds(i.clone()));
+                };
 
                 let constr_data = Data::constr(i, data_list);
 
